@@ -3,7 +3,7 @@ import ast
 from fractions import Fraction
 import z3
 from .vals import (SV, Opt, Inf, Vec, Mat, Obj, SList, Forall, Func, Builtin, ClassRef, ExcClass, ModuleRef,
-                   Unsupported, StrS, fresh, fresh_fun, to_frac, is_num, EnumVal)
+                   Unsupported, StrS, fresh, fresh_fun, to_frac, is_num, EnumVal, EnumSym, EnumValueSym)
 from .ops import term, boolterm, mk, is_scalar, is_real
 from .interp import PyExc, ReturnSig, BreakSig, ContinueSig, Infeasible, Path
 
@@ -245,9 +245,7 @@ class Interp:
 
     def x_For(self, st, env):
         it = self.eval(st.iter, env)
-        inv = self.engine.loop_spec(self.callstack[-1] if self.callstack else None, st)
-        if inv is not None:
-            return inv.run(self, st, env, it)
+        inv = None
         if isinstance(it, self.models.SZip):
             return self.summarise_zip_loop(st, env, it)
         items = self.iterate(it)
@@ -280,7 +278,7 @@ class Interp:
         n = z3.simplify(n)
         t = fresh('it', z3.IntSort())
         before = {k: (v, len(v)) for k, v in env.vars.items() if isinstance(v, list)}
-        item = tuple(mk(l.fn(t)) for l in lists)
+        item = tuple(SL.elem(l, l.fn(t)) for l in lists)
         self.assign(st.target, item, env)
         p.spec_mode += 1
         self.merge_mode = getattr(self, 'merge_mode', 0) + 1
@@ -295,7 +293,7 @@ class Interp:
             if ln != 0 or len(lst) != 1 or env.vars.get(k) is not lst:
                 raise Unsupported('zip loop: only one append per iteration to an initially empty local list')
             e = SL.code(lst[0])
-            env.vars[k] = SL.new(self, n, lambda i, e=e: z3.substitute(e, (t, i)))
+            env.vars[k] = SL.new(self, n, lambda i, e=e: z3.substitute(e, (t, i)), enum=SL.enum_of(lst))
         if st.orelse:
             self.exec_block(st.orelse, env)
 
@@ -332,7 +330,7 @@ class Interp:
                 v.append(self.ops.ite(ct, x, y))
 
     def x_While(self, st, env):
-        inv = self.engine.loop_spec(self.callstack[-1] if self.callstack else None, st)
+        inv = self.engine.loop_spec(self.callstack[-1] if self.callstack else None, st) if self.depth == 1 else None
         if inv is not None:
             return inv.run_while(self, st, env)
         k = 0
@@ -586,6 +584,14 @@ class Interp:
     def sbool(self, x):
         if isinstance(x, (bool, SV)):
             return x
+        if isinstance(x, EnumValueSym):
+            r = False
+            for m in self.enum_members(x.cls):
+                if m.value:
+                    r = self.ops.lor(r, mk(x.t == m.code))
+            return r
+        if isinstance(x, (EnumVal, EnumSym)):
+            return True
         if x is None:
             return False
         if isinstance(x, Opt):
@@ -640,7 +646,10 @@ class Interp:
         if isinstance(a, SV) and isinstance(b, bool) and a.t.sort() == z3.BoolSort():
             return mk(a.t == b)
         if isinstance(a, (Obj, list, dict, SList, Vec)):
-            return a is b
+            if a is b:
+                return True
+            m = getattr(self, 'old_to_live', None) or {}
+            return m.get(id(a)) is b or m.get(id(b)) is a      # old(x) is x  <=>  still the same object
         if isinstance(a, ExcClass) and isinstance(b, ExcClass):
             return a.name == b.name
         if isinstance(a, ClassRef) and isinstance(b, ClassRef):
@@ -717,9 +726,19 @@ class Interp:
                 return (c, c.methods[name])
         return None
 
+    def enum_members(self, cls):
+        ci = self.repo.find_class(cls)
+        return [self.getattr(ClassRef(ci), nm) for nm in ci.class_consts]
+
     def getattr(self, o, name):
         if isinstance(o, Opt):
             o = o.val if self.p.spec_mode else self.p.unwrap(o)
+        if isinstance(o, EnumVal) and name == 'value':
+            return o.value
+        if isinstance(o, EnumVal) and name == 'name':
+            return o.name
+        if isinstance(o, EnumSym) and name == 'value':
+            return EnumValueSym(o.cls, o.t)
         if o is None:
             raise self.p.pyexc('AttributeError')
         if isinstance(o, Obj):
@@ -834,6 +853,27 @@ class Interp:
         rec(0, env)
 
     def e_ListComp(self, n, env):
+        if len(n.generators) == 1 and not n.generators[0].ifs:
+            src0 = self.eval(n.generators[0].iter, env)
+            if isinstance(src0, self.models.SZip):
+                # [f(x, y) for x, y in zip(A, B)] over symbolic-length lists: an element-wise map
+                from . import slist as SL
+                lists = src0.lists
+                nn = lists[0].n
+                for l in lists[1:]:
+                    nn = z3.If(l.n < nn, l.n, nn)
+                t = fresh('it', z3.IntSort())
+                e2 = Env(env.mod, env)
+                self.assign(n.generators[0].target, tuple(SL.elem(l, l.fn(t)) for l in lists), e2)
+                self.p.spec_mode += 1
+                try:
+                    v = self.eval(n.elt, e2)
+                finally:
+                    self.p.spec_mode -= 1
+                e = SL.code(v)
+                return SL.new(self, z3.simplify(nn), lambda i, e=e: z3.substitute(e, (t, i)), enum=SL.enum_of(v))
+            return self._listcomp_from(n, env, src0) if not isinstance(src0, (Vec, self.models.SRange)) else \
+                self._vector_comp_from(n, env, src0)
         if len(n.generators) == 1 and n.generators[0].ifs and isinstance(n.generators[0].target, ast.Name):
             g = n.generators[0]
             src = self.eval(g.iter, env)
@@ -868,6 +908,26 @@ class Interp:
         out = []
         self.comp_iter(n.generators, env, lambda e: out.append(self.eval(n.elt, e)))
         return out
+
+    def _vector_comp_from(self, n, env, src):
+        g = n.generators[0]
+        if isinstance(src, self.models.SRange):
+            lo = src.lo
+            nn = z3.simplify(term(src.hi) - term(lo))
+
+            def fn(i):
+                e2 = Env(env.mod, env)
+                self.assign(g.target, mk(term(i) + term(lo)), e2)
+                return self.eval(n.elt, e2)
+            return Vec(nn, fn)
+        if isinstance(src.n, int):
+            return self._listcomp_from(n, env, src)
+
+        def fn2(i):
+            e2 = Env(env.mod, env)
+            self.assign(g.target, src.at(i), e2)
+            return self.eval(n.elt, e2)
+        return Vec(src.n, fn2)
 
     def _listcomp_from(self, n, env, src):
         g = n.generators[0]
